@@ -344,7 +344,7 @@ func c15(c *Ctx) {
 				}
 			}
 			c.R.Check(sends == 1 && closes == 0, site(store)+" failure-forwarded", c.pos(store.Pos()), "a Store failure is sent on the cache-write channel", "a failed cache Store is not reported to the reconciler")
-			c.R.Check(hasSuffixCall(cfgx.CallArgs(store)[0], ".GetName"), site(store)+" key", c.pos(store.Pos()), "stored under the revision name", "the cache entry is not stored under the revision name")
+			c.R.Check(flow.Strict.Any(cfgx.CallArgs(store)[0], func(v ssa.Value) bool { return hasSuffixCall(v, ".GetName") }), site(store)+" key", c.pos(store.Pos()), "stored under the revision name", "the cache entry is not stored under the revision name")
 			// Has/Get/Delete(id): id is GetName() except under PullNever; Store unreachable on PullNever-consistent paths
 			var goIns ssa.Instruction
 			for _, b := range rec.Blocks {
@@ -359,9 +359,9 @@ func c15(c *Ctx) {
 			var never []cfgx.Edge
 			for _, b := range rec.Blocks {
 				for _, in := range b.Instrs {
-					if bo, ok := in.(*ssa.BinOp); ok && bo.Op == token.EQL {
+					if bo, ok := in.(*ssa.BinOp); ok && isEqOrNeq(bo) {
 						if s, ok := cfgx.ConstString(bo.Y); ok && s == "Never" {
-							t, _ := cfgx.CondEdges(bo)
+							t, _ := eqEdges(bo)
 							never = append(never, t...)
 						}
 					}
@@ -459,10 +459,10 @@ func c15(c *Ctx) {
 		okPos := false
 		for _, b := range ib.Blocks {
 			for _, in := range b.Instrs {
-				if bo, ok := in.(*ssa.BinOp); ok && bo.Op == token.EQL {
+				if bo, ok := in.(*ssa.BinOp); ok && isEqOrNeq(bo) {
 					if s, ok := cfgx.ConstString(bo.Y); ok && s == "package.yaml" {
 						if _, p, okp := flow.AccessPathC(bo.X); okp && p == "Name" {
-							t, _ := cfgx.CondEdges(bo)
+							t, _ := eqEdges(bo)
 							for _, bb := range ib.Blocks {
 								if r, ok := bb.Instrs[len(bb.Instrs)-1].(*ssa.Return); ok && nonNilError(r) == "nil" {
 									if ok2, _ := cfgx.MustCross(r, t, nil); ok2 {
@@ -538,13 +538,13 @@ func c15(c *Ctx) {
 		var noCfg []cfgx.Edge
 		for _, b := range sr.Blocks {
 			for _, in := range b.Instrs {
-				if bo, ok := in.(*ssa.BinOp); ok && bo.Op == token.EQL && cfgx.IsNilConst(bo.Y) {
+				if bo, ok := in.(*ssa.BinOp); ok && isEqOrNeq(bo) && cfgx.IsNilConst(bo.Y) {
 					if _, p, okp := flow.AccessPathC(bo.X); okp && p == "Cosign" {
-						t, _ := cfgx.CondEdges(bo)
+						t, _ := eqEdges(bo)
 						noCfg = append(noCfg, t...)
 					}
 					if ex, ok := bo.X.(*ssa.Extract); ok && ex.Index == 1 && hasSuffixCall(ex.Tuple, "ImageVerificationConfigFor") {
-						t, _ := cfgx.CondEdges(bo)
+						t, _ := eqEdges(bo)
 						noCfg = append(noCfg, t...)
 					}
 				}
